@@ -601,6 +601,7 @@ def cmd_replay(path, quiet=False):
         print(f"KNOWN-FINDING: property={prop} {k['id']}: {k['summary'][:200]}")
         print(f"REPRODUCED-AS-KNOWN property={prop} invariant={rep['invariant']} digest_match={same}")
         return 0
+    print(f"REPRODUCED property={prop} invariant={rep['invariant']} digest_match={same}")
     if not quiet:
         print(f"  detail: {item.get('detail')}")
         print(f"VIOLATION property={prop} replay={path}")
